@@ -7,6 +7,7 @@ ACTIONS = [
     ("rm", "g/e"), ("mk", "n"), ("set", "g", "F"), ("del", "g/e", "F"),
     ("cp_obj", "g", "/", "c"), ("cp_obj", "d", "g", "c"), ("rm_root",),
     ("cp_src_obj", "g", "g4"), ("sub_cp", "g", "e", "e2"), ("cp_root", "bk"),
+    ("set", "d", "B1"), ("set", "g/e", "B2"), ("del", "g/e", "B2"), ("del", "d", "B1"), ("set", "g", "A"),
 ]
 
 
